@@ -562,6 +562,11 @@ def op_let(w, ins):
             pp.append((k, v))
     pairs = pp
     if not pairs:
+        if ins.get('empty_ok') and how == 'let':
+            # an empty dict of definitions changes nothing
+            ok, v = call(w, g.api.let, {}, a.ref)
+            take_result(w, m, ok, v, a.tt, 'C04', ins.get('keep', False), 'let with empty definitions')
+            return
         return 'skip'
     if kind == 'bool':
         d = {w.names[k]: bool(v) for k, v in pairs}
